@@ -7,7 +7,7 @@ from ..flow import Aff, Facts, cmp_to_constraints
 
 META = {
     'design_ref': 'DESIGN.md §5 C18',
-    'technique': 'regular-language equivalence for the command regex; path-sensitive affine-form analysis of patches_from_ed_script (command x range table with module constants, difference-bound entailment for slice validity); CFG must-pass-through for the text-block terminator in the function or its helper; tuple-order agreement with patch_lines; patch_lines: the mutating loop runs over the materialised script, and its range guard is interpreted on affine values (ValueError exactly when the range end exceeds the length); a reader written with a mode variable is normalised to the nested loop first',
+    'technique': 'regular-language equivalence for the command regex; path-sensitive affine-form analysis of patches_from_ed_script (command x range table with module constants, difference-bound entailment for slice validity); CFG must-pass-through for the text-block terminator in the function or its helper; tuple-order agreement with patch_lines; patch_lines: the mutating loop runs over the materialised script, and its range guard is interpreted on affine values (ValueError exactly when the range end exceeds the length); a reader written with a mode variable is normalised to the nested loop first; format-arity rule for the messages of refusals (a refusal arrives as the promised ValueError)',
     'level_text': 'Static decision: the command regex accepts exactly the ed command lines on ASCII input; for every command '
                   'letter and range form every path through the loop body either raises ValueError or yields the slice the ed '
                   'semantics prescribes, with 0 <= first <= last proved from the guards on the path; no path reaches the yield '
@@ -79,6 +79,11 @@ def ed_parser(src):
     """patches_from_ed_script; a reader written as one loop with a mode variable is read as the nested loop it abbreviates"""
     from ..core import Func
     f = src.func(SITE)
+    node, inl = normalize.inline_helpers(f)
+    if inl:
+        # the reading of one command may live in a helper that returns (first, last, ...): put in place, results as single assignments
+        node = normalize.split_tuple_assign(node)
+        f = Func(f.module, node, f.qual, f.cls)
     alt = normalize.mode_variable_to_nested_loop(f.node)
     return f if alt is None else Func(f.module, alt, f.qual, f.cls)
 
@@ -944,3 +949,6 @@ def check(src, rep, tier):
         rep.guard('C18.R2', r2_r4_table, src, roles)
     rep.guard('C18.R3', r3_terminator, src)
     rep.guard('C18.R5', r5_application, src)
+    # refusals are ValueError: the messages of the refusals can be built
+    from . import common
+    rep.guard('C18.R5', common.check_error_construction, src, 'C18.R5', 'debian_support', ('patches_from_ed_script', 'patch_lines'), 0)
